@@ -502,8 +502,12 @@ async fn run_wire(c: &Case, ctx: &mut WorkerCtx) -> Outcome {
             let mut cli = match env.client(cid, &u.name, &format!("pool{}", pi), "pw", &[]).await {
                 Ok(c) => c,
                 Err(e) => {
-                    o.fail("configured-user-cannot-log-in", format!("pool{} user {}: {}\n{}", pi, u.name, e, toml_text));
-                    break 'pools;
+                    let mut env = env;
+                    let alive = env.pg.alive();
+                    let ss = std::process::Command::new("ss").arg("-tanp").output().map(|o| String::from_utf8_lossy(&o.stdout).lines().filter(|l| l.contains(&format!(":{} ", port))).collect::<Vec<_>>().join(" | ")).unwrap_or_default();
+                    o.fail("configured-user-cannot-log-in", format!("pool{} user {}: {} (pgcat pid={} alive={}, listeners: {}, stderr: {})\n{}", pi, u.name, e, env.pg.pid(), alive, ss, env.pg.stderr_tail(60000).lines().filter(|l| !l.contains("AddressStats")).collect::<Vec<_>>().join("\n"), toml_text));
+                    env.finish().await;
+                    return o;
                 }
             };
             for k in 0..n {
